@@ -28,7 +28,7 @@ func c18RefInterp(t *testing.T, c c18Case) kit.Verdict {
 	c18CaseClasses(v, c)
 	var cleanMu sync.Mutex
 	var cleans []c18Stamp
-	log, res := c18Play(t, c, func(clk *c18Clock, log *c18Log) (func(g, i int, op c18Op), func()) {
+	log, res := c18PlayRounds(t, c, true, func(clk *c18Clock, log *c18Log) (func(g, i int, op c18Op), func()) {
 		rr := syncx.NewRefResource(func() {
 			st := clk.now()
 			cleanMu.Lock()
@@ -173,7 +173,7 @@ func c18RefGen(rt *rapid.T) c18Case {
 }
 
 func TestVerif_C18_refresource(t *testing.T) {
-	kit.Run(t, c18ID, "refresource", kit.Opts{Quick: 10000, Thorough: 480000}, c18RefGen,
+	kit.Run(t, c18ID, "refresource", kit.Opts{Quick: 6000, Thorough: 320000}, c18RefGen,
 		func(c c18Case) kit.Verdict { return c18RefInterp(t, c) })
 }
 
@@ -193,7 +193,7 @@ func c18ManagedInterp(t *testing.T, c c18Case) kit.Verdict {
 	c18CaseClasses(v, c)
 	var genOverlap atomic.Int32
 	var generated atomic.Int64
-	log, res := c18Play(t, c, func(clk *c18Clock, log *c18Log) (func(g, i int, op c18Op), func()) {
+	log, res := c18PlayRounds(t, c, true, func(clk *c18Clock, log *c18Log) (func(g, i int, op c18Op), func()) {
 		var inside atomic.Int32
 		mr := syncx.NewManagedResource(func() interface{} {
 			if inside.Add(1) != 1 {
@@ -317,7 +317,7 @@ func c18ManagedGen(rt *rapid.T) c18Case {
 }
 
 func TestVerif_C18_managedresource(t *testing.T) {
-	kit.Run(t, c18ID, "managedresource", kit.Opts{Quick: 8000, Thorough: 320000}, c18ManagedGen,
+	kit.Run(t, c18ID, "managedresource", kit.Opts{Quick: 5000, Thorough: 240000}, c18ManagedGen,
 		func(c c18Case) kit.Verdict { return c18ManagedInterp(t, c) })
 }
 
@@ -460,6 +460,6 @@ func c18ImmutableGen(rt *rapid.T) c18ImmCase {
 }
 
 func TestVerif_C18_immutableresource(t *testing.T) {
-	kit.Run(t, c18ID, "immutableresource", kit.Opts{Quick: 8000, Thorough: 320000}, c18ImmutableGen,
+	kit.Run(t, c18ID, "immutableresource", kit.Opts{Quick: 5000, Thorough: 240000}, c18ImmutableGen,
 		func(c c18ImmCase) kit.Verdict { return c18ImmutableInterp(t, c) })
 }
